@@ -19,6 +19,12 @@ probes, `Proofs/LatRotatedPlanar3DCodeRank.lean`) and there are exactly `n − k
 the generic code model (`Model/Code.lean`, C02) assemble from this lattice model form a valid
 `[[n, 1]]` stabilizer code (`ValidCodeL`: all four clauses of C01, rank included) for EVERY size of
 the family.
+
+The family (`selStabs`) is defined in the Mathlib-free model file, printed by the driver op `rankfamily` and
+evaluated on the IMPLEMENTATION's parity-check matrix on every run (stream
+`lat-RotatedPlanar3DCode-rank-family`: members `n − k`, all distinct stabilizer locations, GF(2) rank
+`n − k`).  `deformation_default_axis`: the default `deformation_axis='z'` of the signature (stream cases
+with the keyword omitted).
 -/
 import PanqecVerif.Proofs.LatRotatedPlanar3DCode5
 import PanqecVerif.Proofs.LatRotatedPlanar3DCode6
